@@ -14,7 +14,12 @@ Re-read from /repo's current `runtime.py`, `journal/task_journal.py`, `journal/c
 * `recordSites`    — order inside `TaskJournal.record` (seq = len(entries), append, index += 1, INSERT);
 * SQL texts of `SqliteJournalCrud` / `PostgresJournalCrud` (whitespace-normalised, table reference
   replaced by `T`), with the facts the model uses (`ORDER BY seq_num ASC`, `seq_num >=`, `function_id >`);
-* key formats of `WorkerTask` / `PullTask`.
+* key formats of `WorkerTask` / `PullTask`;
+* `isReplayingBody` / `adapterIsReplayingBody` — `TaskJournal.is_replaying` (the journal cursor) and
+                     `InternalDBOSAdapter.is_replaying` (that cursor and nothing else once a database is
+                     configured), and `serverPersistGuard` — `_ServerInternalRunAdapter.write_to_event_stream`
+                     persists (status update + `append_event`) exactly when `not self.is_replaying()` and always
+                     forwards to the inner adapter.
 """
 from __future__ import annotations
 
@@ -29,6 +34,7 @@ RUNTIME = "packages/llama-agents-dbos/src/llama_agents/dbos/runtime.py"
 TASKJ = "packages/llama-agents-dbos/src/llama_agents/dbos/journal/task_journal.py"
 CRUD = "packages/llama-agents-dbos/src/llama_agents/dbos/journal/crud.py"
 NAMED = "packages/llama-index-workflows/src/workflows/runtime/types/named_task.py"
+SERVER_RT = "packages/llama-agents-server/src/llama_agents/server/_runtime/server_runtime.py"
 
 
 def _parse(rel: str, notes: list[str]) -> ast.Module | None:
@@ -315,8 +321,47 @@ def key_format(tree: ast.AST | None, cls: str, notes: list[str]) -> str:
     return "<missing>"
 
 
+def server_persist_guard(fn: ast.AST | None, notes: list[str]) -> list[str]:
+    """shape of `_ServerInternalRunAdapter.write_to_event_stream`: the flag read from `self.is_replaying()`, the
+    `if not <flag>:` block holding the status updates and the `append_event`, the unconditional forward"""
+    if fn is None:
+        notes.append("gen/journal: _ServerInternalRunAdapter.write_to_event_stream not found")
+        return ["<missing>"]
+    flag = None
+    for n in ast.walk(fn):
+        if isinstance(n, ast.Assign) and len(n.targets) == 1 and isinstance(n.targets[0], ast.Name) \
+                and re.sub(r"\s+", "", ast.unparse(n.value)) == "self.is_replaying()":
+            flag = n.targets[0].id
+    if flag is None:
+        notes.append("gen/journal: write_to_event_stream no longer reads self.is_replaying() into a local")
+        return ["<no-flag>"]
+    out = ["flag=self.is_replaying()"]
+
+    def calls(node: ast.AST) -> list[str]:
+        return [ast.unparse(c.func) for c in ast.walk(node) if isinstance(c, ast.Call)]
+
+    for n in ast.walk(fn):
+        if isinstance(n, ast.If) and ast.unparse(n.test) == f"not {flag}":
+            inner = [c for b in n.body for c in calls(b)]
+            out.append("if-not-flag:" + ",".join(c for c in inner if c in ("self._runtime._handle_status_update", "self._store.append_event")
+                                                 ).replace("self._runtime._handle_status_update", "status").replace("self._store.append_event", "append"))
+            out.append("else:" + ("none" if not n.orelse else "some"))
+    guarded = set()
+    for n in ast.walk(fn):
+        if isinstance(n, ast.If):
+            for b in n.body + n.orelse:
+                for c in ast.walk(b):
+                    guarded.add(id(c))
+    fwd = [c for c in ast.walk(fn) if isinstance(c, ast.Call) and ast.unparse(c.func) == "super().write_to_event_stream"]
+    out.append("forward:" + ("always" if fwd and all(id(c) not in guarded for c in fwd) else ("guarded" if fwd else "none")))
+    app = [c for c in ast.walk(fn) if isinstance(c, ast.Call) and ast.unparse(c.func) == "self._store.append_event"]
+    out.append("append-outside-guard:" + str(sum(1 for c in app if id(c) not in guarded)))
+    return out
+
+
 def extract(notes: list[str]) -> dict:
     rt = _parse(RUNTIME, notes)
+    srv = _parse(SERVER_RT, notes)
     tj = _parse(TASKJ, notes)
     cr = _parse(CRUD, notes)
     nt = _parse(NAMED, notes)
@@ -331,6 +376,13 @@ def extract(notes: list[str]) -> dict:
             return None
         purge = canonical_locals(purge, [prule])
     purge_src = small_sites(purge, "_purge_orphaned_operations", notes)
+    adapter_rep = _method(rt, "InternalDBOSAdapter", "is_replaying")
+    if adapter_rep is not None:
+        def jrule(v: ast.AST, mapping: dict, tup: bool) -> str | None:
+            if isinstance(v, ast.Call) and _call_name(v) == "self._get_or_create_journal":
+                return "journal"
+            return None
+        adapter_rep = canonical_locals(adapter_rep, [jrule])
     pull_prefix = "<missing>"
     if nt is not None:
         for n in nt.body:
@@ -345,6 +397,10 @@ def extract(notes: list[str]) -> dict:
         "advanceBody": small_sites(_method(tj, "TaskJournal", "advance"), "TaskJournal.advance", notes),
         "nextExpectedBody": small_sites(_method(tj, "TaskJournal", "next_expected_key"), "TaskJournal.next_expected_key", notes),
         "loadBody": small_sites(_method(tj, "TaskJournal", "load"), "TaskJournal.load", notes),
+        "isReplayingBody": small_sites(_method(tj, "TaskJournal", "is_replaying"), "TaskJournal.is_replaying", notes),
+        "hasEntriesBody": small_sites(_method(tj, "TaskJournal", "has_entries"), "TaskJournal.has_entries", notes),
+        "adapterIsReplayingBody": small_sites(adapter_rep, "InternalDBOSAdapter.is_replaying", notes),
+        "serverPersistGuard": server_persist_guard(_method(srv, "_ServerInternalRunAdapter", "write_to_event_stream"), notes),
         "purgeStaleBody": small_sites(_method(tj, "TaskJournal", "purge_stale"), "TaskJournal.purge_stale", notes),
         "workerKey": key_format(nt, "WorkerTask", notes), "pullKey": key_format(nt, "PullTask", notes),
         "pendingWorkerKey": key_format(nt, "PendingWorker", notes), "pendingPullKey": key_format(nt, "PendingPull", notes),
@@ -374,6 +430,10 @@ def generate(notes: list[str]) -> list[str]:
            f"def advanceBody : String := {lean_str(r['advanceBody'])}",
            f"def nextExpectedBody : String := {lean_str(r['nextExpectedBody'])}",
            f"def loadBody : String := {lean_str(r['loadBody'])}",
+           f"def isReplayingBody : String := {lean_str(r['isReplayingBody'])}",
+           f"def hasEntriesBody : String := {lean_str(r['hasEntriesBody'])}",
+           f"def adapterIsReplayingBody : String := {lean_str(r['adapterIsReplayingBody'])}",
+           f"def serverPersistGuard : List String := {ls(r['serverPersistGuard'])}",
            f"def purgeStaleBody : String := {lean_str(r['purgeStaleBody'])}",
            f"def workerKey : String := {lean_str(r['workerKey'])}",
            f"def pullKey : String := {lean_str(r['pullKey'])}",
